@@ -20,6 +20,8 @@ def one(i):
         if tok.startswith("exit="):
             ex = int(tok[5:])
     kind = "missed" if ex == 0 else "failing-input" if ex == 1 and "no-failing-input-found" not in line else "no-failing-input-found" if ex == 1 else "infra"
+    if "first_detection" not in m and "detection" in m:
+        m["first_detection"] = dict(outcome=m["detection"].get("outcome"), note="outcome of the check as it stood when the change was first tried")
     m["detection"] = dict(check=m.get("property"), exit=ex, outcome=kind, line=line[-300:], how="tools/try_seeded.sh (patch applied to a scratch copy of /repo's working tree, quick tier, VERIF_SEED=0)")
     json.dump(m, open(os.path.join(d, "meta.json"), "w"), indent=1)
     return i, kind
@@ -46,10 +48,11 @@ for i in sorted(os.listdir(os.path.join(V, "seeded"))):
     m = json.load(open(mp))
     det = m.get("detection", {})
     conf = m.get("confirmed", {})
-    rows.append(f"| {i} | {m.get('property')} | {str(m.get('summary',''))[:160].replace('|','/')} | {str(m.get('needs',''))[:120].replace('|','/')} | {'yes' if conf.get('ok') else 'no' if conf else '?'} | {det.get('outcome','not run')} |")
+    first = m.get("first_detection", {}).get("outcome", det.get("outcome", "not run"))
+    rows.append(f"| {i} | {m.get('property')} | {str(m.get('summary',''))[:160].replace('|','/')} | {str(m.get('needs',''))[:120].replace('|','/')} | {'yes' if conf.get('ok') else 'no' if conf else '?'} | {first} | {det.get('outcome','not run')} |")
 with open(os.path.join(V, "docs", "SEEDED.md"), "w") as fh:
     fh.write("# Independently seeded property-breaking changes and what catches them\n\n"
              "Each change was written by a fresh sub-agent that saw only the property text and a scratch copy of the repository, "
              "passes the unedited test suite, and comes with a demo that fails with it and passes without it (`confirmed`: re-run by "
-             "`tools/verify_seeded.sh`).  `outcome` is what the property's quick check reports with the change applied "
-             "(`tools/seed_matrix.py`).\n\n| id | property | change | needs | confirmed | outcome of the check |\n|---|---|---|---|---|---|\n" + "\n".join(rows) + "\n")
+             "`tools/verify_seeded.sh`).  `first outcome` is what the property's quick check reported when the change was first tried, `current outcome` what it reports now (after the checks were strengthened generally, never by special-casing a change) "
+             "(`tools/seed_matrix.py`).\n\n| id | property | change | needs | confirmed | first outcome | current outcome |\n|---|---|---|---|---|---|---|\n" + "\n".join(rows) + "\n")
